@@ -1,0 +1,20 @@
+//go:build verif
+
+package predict
+
+import "seehuhn.de/go/membudget"
+
+// VerifBufferLens runs the real initBuffers for p and reports what it charged
+// (without membudget's per-charge overhead) and the total size of the buffers
+// it allocated (verification property C08).  It adds no logic of its own.
+func VerifBufferLens(p *Params) (charged, allocated int64, err error) {
+	const big = int64(1) << 60
+	r := &reader{params: p, budget: membudget.New(big)}
+	err = r.initBuffers()
+	if err != nil {
+		return 0, 0, err
+	}
+	charged = big - r.budget.Available() - 2*32
+	allocated = int64(len(r.outputBuffer) + len(r.prevRow) + len(r.inputBuffer) + 4*len(r.prevValues))
+	return charged, allocated, nil
+}
